@@ -58,6 +58,9 @@ def canary_badaccepted(traces):
             c['ev'][-1] = {'t': 'ret', 'lvl': 'io', 'code': [50, 53, 48], 'body': [], 'rest': c['ev'][-1]['rest']}
             if c['cls'] == 'shape' and sum(len(e.get('b', [])) for e in c['ev']) < 6:
                 continue
+            stream = [b for e in tr['ev'] if e['t'] == 'recv' for b in e['b']]
+            if len(stream) >= 3 and all(48 <= b <= 57 for b in stream[:3]):
+                continue        # 'ddd ...': may be the tolerated grey shape (a reply with empty text) - not a clear-cut refusal
             return c, 'BadReply outcome replaced by a returned reply'
 
 
